@@ -123,13 +123,24 @@ def run_property(pid, tier, seed):
             res.undecided.append(f"extra obligations: {u}")
         except Exception as ex:   # noqa
             res.errors.append(f"engine error in extra obligations: {ex}\n{traceback.format_exc()}")
+    # ---- 1b. obligations decided by a syntactic (effect) analysis of the real source ------------------------------
+    static_info = []
+    static_failed = []
+    if getattr(P, 'STATIC', None):
+        try:
+            static_info = P.STATIC(tier)
+        except Exception as ex:   # noqa
+            res.errors.append(f"static analysis crashed: {ex}\n{traceback.format_exc()}")
+        per_fn_counts['(effect obligations)'] = len(static_info)
+        static_failed = [x for x in static_info if not x['ok']]
     # ---- 2. discharge ------------------------------------------------------------------------------------
     results = smt.discharge(all_obls, tier)
     agg = defaultdict(list)
     for ob, r in zip(all_obls, results):
         agg[ob.id].append((ob, r))
-    n_obl = n_dis = 0
-    samples = []
+    n_obl = len(static_info)
+    n_dis = len(static_info) - len(static_failed)
+    samples = [{'obligation': x['id'], 'status': 'holds', 'backend': 'effect analysis (AST)'} for x in static_info[:3]]
     solver_time = 0.0
     backends = defaultdict(int)
     failed = []
@@ -214,6 +225,26 @@ def run_property(pid, tier, seed):
             res.undecided.append(f"{oid}: solver answered unknown; a model of the quantifier-free part exists but was not "
                                  f"confirmed on the real code (see {path})")
         elif k:
+            res.known.append((k, entry))
+        else:
+            res.violations.append(entry)
+    for x in static_failed:
+        witness, observed, confirmed = None, None, False
+        if getattr(P, 'SEARCH_STATIC', None):
+            try:
+                found = P.SEARCH_STATIC(x, seed)
+            except Exception as ex:   # noqa
+                found = None
+            if found is not None:
+                witness, observed, confirmed = found['witness'], found['observed'], True
+        path = os.path.join(OUT, 'replays', f"{pid}-{slug(x['id'])}.json")
+        json.dump({'property': pid, 'obligation': x['id'], 'function': x.get('function'), 'detail': x.get('detail'),
+                   'solver': {'status': 'fails', 'backend': 'effect analysis (AST)'}, 'witness': witness, 'observed': observed,
+                   'confirmed_on_real_code': bool(confirmed), 'repo_sources': frontend.sources_read()},
+                  open(path, 'w'), indent=1, default=str)
+        entry = {'what': x['id'], 'replay': path, 'confirmed': bool(confirmed), 'detail': x.get('detail')}
+        k = next((f for f in kf if finding_matches(f, pid, obligation=x['id'])), None)
+        if k:
             res.known.append((k, entry))
         else:
             res.violations.append(entry)
